@@ -43,6 +43,9 @@ type Expected struct {
 	Alive []bool
 	// Waves is the number of wavefronts of the dispatch; Exited how many exit early.
 	Waves, Exited int
+	// Earlier[k][cell] lists the values that earlier stores of the same work-item put
+	// into output cell `cell` before the final one (only cells stored to more than once).
+	Earlier [2]map[int][]uint32
 }
 
 // Eval computes the reference outcome at the level of the program's meaning.
@@ -103,6 +106,14 @@ func (p *Program) Eval() Expected {
 		return vals[o.A][i]
 	}
 	wgItems := uint32(g.WGItems())
+	written := [2]map[int]bool{{}, {}}
+	exp.Earlier = [2]map[int][]uint32{{}, {}}
+	note := func(k, cell int) {
+		if written[k][cell] {
+			exp.Earlier[k][cell] = append(exp.Earlier[k][cell], exp.Out[k][cell])
+		}
+		written[k][cell] = true
+	}
 	for _, o := range p.Ops {
 		switch o.Kind {
 		case "const":
@@ -151,6 +162,7 @@ func (p *Program) Eval() Expected {
 		case "ifstore":
 			for i := 0; i < n; i++ {
 				if alive[i] && EvalCmp(o.Cmp, src0(o, i), vals[o.B][i]) {
+					note(o.K, i*p.Slots+o.Slot)
 					exp.Out[o.K][i*p.Slots+o.Slot] = vals[o.C][i]
 				}
 			}
@@ -195,6 +207,7 @@ func (p *Program) Eval() Expected {
 		case "store":
 			for i := 0; i < n; i++ {
 				if alive[i] {
+					note(o.K, i*p.Slots+o.Slot)
 					exp.Out[o.K][i*p.Slots+o.Slot] = vals[o.A][i]
 				}
 			}
